@@ -696,7 +696,7 @@ def rule_safesub(repo, rid, modules):
                      'the complementary branch of a later torch.where on the same mask it is the constant, not the value', floor=1)
     k = 0
     for m in modules:
-        for f in repo.module(m).functions.values():
+        for f in repo.functions_view(m):
             k += 1
             for st, n, w, leak in sanitised_leaks(f.node):
                 res.inst({'function': f.fq, 'sanitised': n, 'leak': leak}, (f.fq, n, leak))
